@@ -24,7 +24,7 @@ PROPS = {
                         "round trip over all widths/indents is not enumerated; the token-level argument is layout-independent"],
     },
     "C15": {
-        "rules": [typing_rules.rule_zip, typing_rules.rule_dup, typing_rules.rule_nodup, typing_rules.rule_result, typing_rules.rule_clause_exits, typing_rules.rule_lookup, typing_rules.rule_checkall,
+        "rules": [typing_rules.rule_zip, typing_rules.rule_dup, typing_rules.rule_nodup, typing_rules.rule_result, typing_rules.rule_clause_exits, typing_rules.rule_lookup, typing_rules.rule_checkall, typing_rules.rule_instance,
                   traversal.rule_trav(["fun::typing::check::Check"]), annot.rule_annot_check, panics.rule_panic(("A",))],
         "text": "Rejection discipline of the type checker, decided for every program: zips are length-guarded (R-ZIP), declarations are "
                 "inserted only after a duplicate check that returns Err (R-DUP), binder lists are checked for duplicates before use "
